@@ -169,11 +169,11 @@ def create_table(
                 "grammar symbol.",
             )
 
-    follow_sets = follow(grammar, first_sets)
-
     _old_start_production_rhs = grammar.productions[0].rhs
     start_prod_symbol = grammar.productions[start_production].symbol
     grammar.productions[0].rhs = ProductionRHS([start_prod_symbol, STOP])
+
+    follow_sets = follow(grammar, first_sets)
 
     # Create a state for the first production (augmented)
     s = LRState(grammar, 0, AUGSYMBOL, [LRItem(grammar.productions[0], 0, set())])
